@@ -132,7 +132,9 @@ class _Worker:
 
 
 class VirtualPool:
-    def __init__(self, vmp, processes=None, initializer=None, initargs=()):
+    def __init__(self, vmp, processes=None, initializer=None, initargs=(), maxtasksperchild=None, context=None):
+        self.maxtasks = maxtasksperchild
+        self.initializer = initializer
         self.vmp = vmp
         self.module = vmp.module
         self.W = processes if processes else vmp.cpu_count()
@@ -189,8 +191,18 @@ class VirtualPool:
         if any(w > self.W for w, _ in sched):
             raise HarnessError("schedule %s uses more than %d workers" % (sched, self.W))
         out = []
+        done = [0] * self.W
         for w, t in sched:
             out.append(self._in_worker(self.workers[w - 1], func, (tasks[t - 1],)))
+            done[w - 1] += 1
+            if self.maxtasks and done[w - 1] >= self.maxtasks:
+                # multiprocessing replaces a worker after `maxtasksperchild` tasks: a new process is forked
+                # from the parent (its current module state) and runs the initializer again
+                base = {k: v for k, v in self.module.__dict__.items() if not k.startswith("__") and _is_data(v)}
+                self.workers[w - 1] = _Worker(self.module, base)
+                if self.initializer is not None:
+                    self._in_worker(self.workers[w - 1], self.initializer, self.initargs)
+                done[w - 1] = 0
         vmp.executed = tuple(sched)
         return iter(out)
 
@@ -221,8 +233,8 @@ class VirtualMP:
     def cpu_count(self):
         return self.ncpu
 
-    def Pool(self, processes=None, initializer=None, initargs=()):
-        return VirtualPool(self, processes, initializer, initargs)
+    def Pool(self, processes=None, initializer=None, initargs=(), maxtasksperchild=None, context=None):
+        return VirtualPool(self, processes, initializer, initargs, maxtasksperchild, context)
 
     def reset(self):
         self.log = []
